@@ -26,7 +26,7 @@ RULE = (
 ASSUMPTIONS = [
     "uses that no path of the liberal CFG reaches (dead code) are skipped",
     "possibly_undefined_name is enabled for this check (it is off by default)",
-    "nested functions / global / nonlocal / del are not generated in this round",
+    "nested functions: one reader (closure) and setters (nonlocal / global); `global v` with the variable private to the function; del is outside the property's grammar",
 ]
 
 SETTINGS = {"possibly_undefined_name": True}
@@ -167,9 +167,51 @@ def nonlocal_functions():
     yield cfg.renumber([("assign", 0), ("use", 0), ("assignn", 0), ("use", 0)])
 
 
+def global_functions():
+    """The variable is a module-level name declared `global` in the function (bound to 0 at module level, or
+    bound nowhere else): [optional assignment]; one compound with blocks of <=2 atoms (single-block compounds)
+    or <=1 atom per block (two-block compounds); use.  Plus closure reads and nested setters of the global."""
+    B2 = list(blocks(ATOMS, 2))
+    L2 = list(blocks(LOOP_ATOMS, 2))
+    B1 = list(blocks(ATOMS, 1))
+    L1 = list(blocks(LOOP_ATOMS, 1))
+
+    def comps():
+        for b in B2:
+            yield ("if", b, None)
+            yield ("with", "S", b)
+        for b in L2:
+            yield ("while", b, None)
+            yield ("for", b, None)
+            yield ("whiletrue", b)
+        for a, b in itertools.product(B1, B1):
+            yield ("if", a, b)
+            yield ("try", a, [b], None, None)
+            yield ("try", a, [], None, b)
+        for a, b in itertools.product(L1, B1):
+            yield ("while", a, b)
+    for init in (True, False):
+        g = ("global", init)
+        yield cfg.renumber([g, ("use", 0), ("assign", 0), ("use", 0)])
+        for c in comps():
+            if not any(s[0] in ("assign", "use") for s in cfg.walk([c])):
+                continue
+            for prefix in ([], [("assign", 0)], [("use", 0)]):
+                yield cfg.renumber([g] + prefix + [c, ("use", 0)])
+        # nested functions reading / assigning the global
+        atoms = [("assign", 0), ("assignn", 0), ("calli",), ("use", 0), ("return",)]
+        for b in blocks(atoms, 2):
+            if not any(s[0] in ("assignn", "calli") for s in b):
+                continue
+            for comp in (("if", b, None), ("while", b, None), ("try", b, [[("pass",)]], None, None)):
+                for prefix in ([], [("assign", 0)]):
+                    yield cfg.renumber([g] + prefix + [comp, ("use", 0)])
+
+
 def exhaustive_functions():
     yield from nested_loop_functions()
     yield from nonlocal_functions()
+    yield from global_functions()
     yield from loop_in_slot_functions()
     for c in compounds():
         for prefix in ([], [("assign", 0)]):
@@ -205,7 +247,14 @@ def skeleton_strategy(width=3, depth=3):
             st.tuples(st.just("with"), st.sampled_from(["S", "N"]), b),
         )
 
-    return block(depth, False).map(lambda b: cfg.renumber(list(b) + [("use", 0)]))
+    def finish(b, g):
+        b = list(b) + [("use", 0)]
+        if g is not None:
+            b = [("global", g)] + b
+        return cfg.renumber(b)
+
+    # one skeleton in five keeps its variable at module level (`global`), bound there or not
+    return st.builds(finish, block(depth, False), st.sampled_from([None, None, None, None, None, None, None, None, True, False]))
 
 
 def trim_dead(b):
@@ -245,6 +294,8 @@ def paths(stmts, prefix=""):
             elif t == "with":
                 go(s[2], f"{p}>with{s[1]}.body")
     go(stmts, prefix)
+    if cfg.global_mode(stmts):
+        defs[0] = "top"  # the module-level binding
     return sites, defs
 
 
@@ -307,8 +358,10 @@ def judge(funcs, checker, col=None, script_len=7):
         dynamic = {}
         fn = ns[name]
         # line numbers inside the separately compiled module equal those of `src`
+        gm = cfg.global_mode(stmts)
+        reset = None if gm is None else (ns, cfg.global_name(name), gm)
         for sc in cfg.scripts(script_len):
-            obs, unbound_line = cfg.execute(fn, vocab, sc)
+            obs, unbound_line = cfg.execute(fn, vocab, sc, reset=reset)
             for site, xs in obs.items():
                 dynamic.setdefault(site, set()).update(xs)
             if unbound_line is not None:
@@ -455,6 +508,7 @@ def run_shard(spec):
                                           "closure reads: one compound over {v=, inner(), call(), return}",
                                           "a loop with a body of <=2 atoms in every block position of every compound statement",
                                           "nonlocal: v=; one compound or if/else over {v=, nested setter through nonlocal, use, call, return}; use",
+                                          "global: `global v` (module-level binding present / absent); [v= | use]; one compound (blocks <=2 atoms, two-block forms <=1) ; use; nested readers / setters of the global",
                                           "loops nested 2 and 3 deep (while/for at each level) with `if c: [v=;] break/continue` after the inner loop at each level"]
         return col.result()
 
